@@ -136,6 +136,7 @@ func TestWorker(t *testing.T) {
 	budget := time.Duration(envInt("VERIF_BUDGET_MS", 10_000)) * time.Millisecond
 	minBudget := time.Duration(envInt("VERIF_MIN_MS", 30_000)) * time.Millisecond
 	known := loadKnown()
+	collected := map[string]bool{}
 	out := &WorkerOut{Prop: prop, Worker: worker, Strata: map[string]int{}, Probes: map[string]int{}, Faults: map[string]int{},
 		KnownHits: map[string]int{}, KnownDetail: map[string]string{}, AbortedBy: map[string]int{}}
 	nontrivial := map[uint64]bool{}
@@ -211,6 +212,20 @@ func TestWorker(t *testing.T) {
 			if mine == nil && os.Getenv("VERIF_ANYPROP") != "" && !known[key] {
 				mine = &res.Viol[k] // dev mode: stop at the first unknown violation of any property
 			}
+		}
+		if mine != nil && os.Getenv("VERIF_COLLECT") != "" {
+			// dev mode: keep going, save one unminimised replay per unknown signature
+			for k := range res.Viol {
+				v := res.Viol[k]
+				key := v.Prop + "|" + v.Sig
+				if known[key] || collected[key] {
+					continue
+				}
+				collected[key] = true
+				rf := &ReplayFile{Property: v.Prop, RegProp: prop, Stratum: st.Name, StratumIx: stIdx, Seed: seed, Worker: worker, Run: runIdx, Signature: v.Sig, Oracle: v.Oracle, Detail: v.Detail, Tape: res.Tape, Steps: res.Steps}
+				fmt.Printf("COLLECT %s %s\n", key, writeReplay(rf))
+			}
+			continue
 		}
 		if mine != nil {
 			// minimise, write the replay file, stop
